@@ -306,6 +306,10 @@ def run(ctx):
                         'tz-date-text': '2020-01-01T00:00:00Z',
                         'offset-date-text': '2020-01-01 10:00+02:00',
                         'huge-digits-text': '9' * 400,
+                        'digits-5000-text': '7' * 5000,
+                        'superscript-digit-text': '\u00b2',
+                        'circled-digit-text': '\u2460',
+                        'mixed-digit-text': '1\u00b2',
                         'time-text': '12:00',
                         # dates outside / at the edges of the serial range
                         'date-before-1900': datetime.datetime(1850, 5, 1),
